@@ -1,7 +1,7 @@
 """Single-edit variants for the thorough tier (checker sensitivity).  See sensitivity.py."""
 from __future__ import annotations
 
-from typing import List
+from typing import Dict, List
 
 from .sensitivity import Variant as V
 
@@ -623,7 +623,7 @@ def more_c04():
         V("flatten-sorts-user-collection", S, "Flatten._apply_mapping_", "            inner_iter = inner\n", "            inner_iter = inner\n            if isinstance(inner, list):\n                inner.sort(key=id)\n",
           rule="NO-USER-VALUE-MUTATION"),
         V("domain-listing-twice-yields-twice-first-pass", "hashed_data", "HashedIterable.__iter__",
-          "            if v.id_ in self.values:\n                # listed more than once: it was already yielded, and later iterations will yield it once as well.\n                continue\n", "", rule="DUP-STABLE"),
+          "                if v.id_ in self.values:\n                    # listed more than once: it was already yielded, and later iterations will yield it once as well.\n                    continue\n", "", rule="DUP-STABLE"),
     ]
 
 
@@ -955,7 +955,7 @@ def _twins4():
             V("twin-filter-test-reordered", S, "DomainMapping._evaluate__", "                if yield_when_false or not self._is_false_:", "                if not self._is_false_ or yield_when_false:", kind="twin"),
         ],
         "C07": [
-            V("twin-memo-by-setdefault", "hashed_data", "HashedIterable.__iter__", "            self.values[v.id_] = v\n            yield v", "            self.values.setdefault(v.id_, v)\n            yield v", kind="twin"),
+            V("twin-memo-by-setdefault", "hashed_data", "HashedIterable.__iter__", "                self.values[v.id_] = v\n                self.pulled.append(v)", "                self.values.setdefault(v.id_, v)\n                self.pulled.append(v)", kind="twin"),
         ],
         "C12": [
             V("twin-relink-test-negated", "rule", "refinement", "        if prev_parent.left is current_node:\n            prev_parent.left = new_conditions_root\n        else:\n            prev_parent.right = new_conditions_root",
@@ -1129,7 +1129,7 @@ def fifth_c17():
         V("concatenate-classifies-by-trying", S, "Concatenate._evaluate__",
           "                    child_v_unwrapped = val.value\n                    if not is_iterable(child_v_unwrapped):\n                        child_v_unwrapped = [child_v_unwrapped]\n                    all_values[self._id_].extend(child_v_unwrapped)",
           "                    try:\n                        all_values[self._id_].extend(val.value)\n                    except TypeError:\n                        all_values[self._id_].append(val.value)", rule="SCALAR-CLASSIFIER"),
-        V("concatenation-binds-what-it-ranges-over", S, "Concatenate._evaluate__", "        result = {self._id_: HashedValue(all_values[self._id_])}\n", "        result = {k: HashedValue(v) for k, v in all_values.items()}\n", rule="CONCAT-ONCE"),
+        V("concatenation-binds-what-it-ranges-over", S, "Concatenate._evaluate__", "        result = {self._id_: HashedValue(all_values[self._id_])}\n", "        result = {k: HashedValue(v) for k, v in all_values.items()}\n", kind="twin"),   # only self._id_ is ever stored in all_values: the same row
     ]
 
 
@@ -1207,8 +1207,8 @@ def _twins6():
               "        self.right_cache.keys = [v.id_ for v in self.right._unique_variables_.filter(lambda v: not isinstance(v, Literal))]", kind="twin"),
         ],
         "C12": [
-            V("twin-rule-flag-nested-tests", S, "SymbolicExpression.__enter__", "        if in_rule_mode and isinstance(self, ResultQuantifier):\n",
-              "        if in_rule_mode:\n          if isinstance(self, ResultQuantifier):\n", kind="twin"),
+            V("twin-rule-flag-nested-tests", S, "symbolic_mode", "            if mode == EQLMode.Rule and isinstance(query, ResultQuantifier):\n",
+              "            if mode == EQLMode.Rule:\n              if isinstance(query, ResultQuantifier):\n", kind="twin"),
             V("twin-left-flag-set-later", S, "ElseIf._evaluate__",
               "                self.left._is_false_ = True\n                right_prev = self.right._eval_parent_\n                self.right._eval_parent_ = self\n",
               "                right_prev = self.right._eval_parent_\n                self.right._eval_parent_ = self\n                self.left._is_false_ = True\n", kind="twin"),
@@ -1217,4 +1217,146 @@ def _twins6():
 
 
 for _pid, _vs in _twins6().items():
+    REGISTRY[_pid] = _merged(REGISTRY[_pid], (lambda vs: (lambda: vs))(_vs))
+
+
+# ---------------------------------------------------------------------------------------------------------------------
+# seventh batch: the rules added after the fourth round of seeded changes
+HD = "hashed_data"
+_CLEAR_OLD = ('        clear_cached_requirements = getattr(type(self)._required_variables_from_child_, "cache_clear", None)\n'
+              '        if clear_cached_requirements is not None:\n            clear_cached_requirements()')
+_UNBOUND_OLD = ("            if All in cache:\n                yield from self._yield_result(assignment, cache[All], key_idx, result)\n            else:\n"
+                "                # Explore all branches at this level, copying only the minimal delta\n"
+                "                for cache_key, cache_val in cache.items():\n                    local_result = copy(result)\n"
+                "                    local_result[key] = cache_key\n                    yield from self._yield_result(assignment, cache_val, key_idx, local_result)")
+
+
+def _batch7() -> Dict[str, List[V]]:
+    memo_clear = [
+        V("memo-cleared-on-the-base-class-only", S, "SymbolicExpression._reset_only_my_cache_", _CLEAR_OLD,
+          "        SymbolicExpression._required_variables_from_child_.cache_clear()", rule="CACHED-POSITION-RESET"),
+        V("memo-cleared-at-the-root-only", S, "SymbolicExpression._reset_only_my_cache_", _CLEAR_OLD,
+          "        if self._parent_ is None:\n            type(self)._required_variables_from_child_.cache_clear()", rule="CACHED-POSITION-RESET"),
+        V("twin-memo-cleared-without-getattr", S, "SymbolicExpression._reset_only_my_cache_", _CLEAR_OLD,
+          "        type(self)._required_variables_from_child_.cache_clear()", kind="twin"),
+    ]
+    shared_tail = [
+        V("pulled-elements-not-recorded", HD, "HashedIterable.__iter__", "                self.pulled.append(v)\n", "", rule="SHARED-TAIL"),
+        V("getitem-pull-not-recorded", HD, "HashedIterable.__getitem__", "                    self.pulled.append(v)\n", "", rule="SHARED-TAIL"),
+        V("source-delegated-to", HD, "HashedIterable.__iter__", "        yield from list(self.values.values())\n",
+          "        yield from list(self.values.values())\n        if not self.pulled:\n            yield from self.iterable\n", rule="SOURCE-NOT-DELEGATED"),
+    ]
+    wrap = [
+        V("none-members-not-wrapped", HD, "HashedIterable.set_iterable", "for v in iterable)", "for v in iterable if v is not None)", rule="MEMO-ON-PULL"),
+    ]
+    one_entry = [
+        V("open-key-follows-wildcard-and-concrete", CD, "IndexedCache.retrieve", _UNBOUND_OLD,
+          "            for cache_key, cache_val in cache.items():\n                local_result = copy(result)\n                if cache_key is not All:\n"
+          "                    local_result[key] = cache_key\n                yield from self._yield_result(assignment, cache_val, key_idx, local_result)",
+          rule="REPLAY-ONE-ENTRY"),
+        V("twin-open-key-test-negated", CD, "IndexedCache.retrieve", _UNBOUND_OLD,
+          "            if All not in cache:\n                for cache_key, cache_val in cache.items():\n                    local_result = copy(result)\n"
+          "                    local_result[key] = cache_key\n                    yield from self._yield_result(assignment, cache_val, key_idx, local_result)\n"
+          "            else:\n                yield from self._yield_result(assignment, cache[All], key_idx, result)", kind="twin"),
+    ]
+    set_alg = [
+        V("union-as-symmetric-difference", HD, "HashedIterable.union", "self.values.keys() | other.values.keys()", "self.values.keys() ^ other.values.keys()", rule="SET-ALGEBRA"),
+        V("difference-as-intersection", HD, "HashedIterable.difference", "self.values.keys() - other.values.keys()", "self.values.keys() & other.values.keys()", rule="SET-ALGEBRA"),
+        V("twin-union-by-set-method", HD, "HashedIterable.union", "self.values.keys() | other.values.keys()", "set(self.values.keys()).union(other.values.keys())", kind="twin"),
+    ]
+    replay_agree = [
+        V("alternative-replays-its-own-cache", S, "ElseIf._evaluate__",
+          "yield from self.yield_final_output_from_cache(left_value, self.right_cache,\n                                                                      suppress_true_duplicates=True)",
+          "yield from self.yield_final_output_from_cache(left_value, suppress_true_duplicates=True)", rule="CACHE-OPERAND-AGREEMENT"),
+        V("conjunction-replays-for-the-incoming-binding", S, "AND._evaluate__", "yield from self.yield_final_output_from_cache(left_value, self.right_cache)",
+          "yield from self.yield_final_output_from_cache(sources, self.right_cache)", rule="CACHE-OPERAND-AGREEMENT"),
+    ]
+    key_filter = [
+        V("operator-cache-keys-variables-only", S, "BinaryOperator.__post_init__", "combined_vars.filter(lambda v: not isinstance(v.value, Literal))",
+          "combined_vars.filter(lambda v: isinstance(v.value, Variable) and not isinstance(v.value, Literal))", rule="KEY-FILTER-KEEPS"),
+    ]
+    coverage = [
+        V("seen-shortcut-on-values", CD, "SeenSet.check", "        for constraint in self.seen:\n",
+          "        if any(set(assignment.values()) == set(c.values()) for c in self.seen):\n            return True\n        for constraint in self.seen:\n",
+          rule="COVERAGE-SUBSUMPTION"),
+        V("twin-seen-shortcut-on-items", CD, "SeenSet.check", "        for constraint in self.seen:\n",
+          "        if assignment.items() in [c.items() for c in self.seen]:\n            return True\n        for constraint in self.seen:\n", kind="twin"),
+    ]
+    concluded = [
+        V("concluded-store-by-concluded-variable", "conclusion_selector", "ConclusionSelector.update_conclusion",
+          "frozenset(id(conclusion) for conclusion in conclusions)", "frozenset(conclusion.var._var_._id_ for conclusion in conclusions)", rule="CONCLUDED-PER-CONCLUSION"),
+        V("twin-concluded-store-by-conclusion-object", "conclusion_selector", "ConclusionSelector.update_conclusion",
+          "frozenset(id(conclusion) for conclusion in conclusions)", "frozenset(conclusion._id_ for conclusion in conclusions)", kind="twin"),
+    ]
+    rowkey = [
+        V("for-all-key-in-item-order", S, "ForAll._evaluate__", "current_set = {tuple(sorted(d.items())) for d in current}", "current_set = {tuple(d.items()) for d in current}", rule="ROW-KEY-CANONICAL"),
+        V("twin-for-all-key-as-frozenset", S, "ForAll._evaluate__", "current_set = {tuple(sorted(d.items())) for d in current}\n                self.solution_set = [d for d in self.solution_set if tuple(sorted(d.items())) in current_set]",
+          "current_set = {frozenset(d.items()) for d in current}\n                self.solution_set = [d for d in self.solution_set if frozenset(d.items()) in current_set]", kind="twin"),
+    ]
+    trie = [
+        V("inner-level-as-plain-dict", CD, "IndexedCache.insert", "                    next_cache = CacheDict()", "                    next_cache = {}", rule="TRIE-NODE-TYPE"),
+    ]
+    carries = [
+        V("alternative-right-without-incoming", S, "ElseIf._evaluate__", "                any_left = True\n                left_value.update(sources)\n", "                any_left = True\n", rule="BIND-THREAD"),
+        V("twin-alternative-merges-by-dict", S, "ElseIf._evaluate__", "                any_left = True\n                left_value.update(sources)\n",
+          "                any_left = True\n                left_value = {**left_value, **sources}\n", kind="twin"),
+    ]
+    dedup_truth = [
+        V("conjunction-flag-after-duplicate-test", S, "AND._evaluate__",
+          "                    self._is_false_ = True\n                    if self._is_duplicate_output_(left_value):\n                        continue\n",
+          "                    if self._is_duplicate_output_(left_value):\n                        continue\n                    self._is_false_ = True\n", rule="DEDUP-UNDER-ROW-TRUTH"),
+    ]
+    builders = [
+        V("named-let-builds-the-variable-itself", "entity", "let", "        else:\n            var = type_(From(domain))",
+          "        elif name is not None:\n            var = Variable(name, type_, _domain_source_=From(domain))\n        else:\n            var = type_(From(domain))", rule="DECL-FILTER"),
+    ]
+    presence = [
+        V("exhausted-source-released", HD, "HashedIterable.__iter__", "            else:\n                if position >= len(self.pulled):\n                    return",
+          "            else:\n                if position >= len(self.pulled):\n                    self.iterable = []\n                    return", rule="DOMAIN-PRESENCE"),
+    ]
+    stripped = [
+        V("flatten-strips-the-quantifier", "entity", "flatten", "    return Flatten(var)", "    if isinstance(var, ResultQuantifier):\n        var = var._var_\n    return Flatten(var)", rule="QUANT-NOT-STRIPPED"),
+        V("concatenate-strips-the-quantifier", "entity", "concatenate", "    return Concatenate(var)", "    if isinstance(var, ResultQuantifier):\n        var = var._var_\n    return Concatenate(var)", rule="QUANT-NOT-STRIPPED"),
+    ]
+    concat = [
+        V("concatenation-keeps-the-last-child-row", S, "Concatenate._evaluate__", "                    all_values[self._id_].extend(child_v_unwrapped)\n",
+          "                    all_values[self._id_].extend(child_v_unwrapped)\n                else:\n                    all_values[id_] = val\n", rule="CONCAT-ONCE",
+          also=[("        result = {self._id_: HashedValue(all_values[self._id_])}\n", "        result = dict(all_values)\n        result[self._id_] = HashedValue(all_values[self._id_])\n")]),
+    ]
+    identity = [
+        V("wrapped-values-equal-by-payload-too", HD, "HashedValue.__eq__", "        return self.id_ == other.id_", "        return self.id_ == other.id_ or self.value == other.value", rule="VALUE-IDENTITY"),
+        V("twin-wrapped-values-equal-by-hash", HD, "HashedValue.__eq__", "        return self.id_ == other.id_", "        return hash(self) == hash(other)", kind="twin"),
+    ]
+    derived = [
+        V("key-set-computed-once", CD, "IndexedCache.__post_init__", "        self.keys = self._keys", "        self.keys = self._keys\n        self._key_set = frozenset(self._keys)", rule="KEYS-DERIVED-FRESH"),
+    ]
+    keyless = [
+        V("keyless-index-records-coverage", CD, "IndexedCache.insert", "        if not self.keys:\n", "        if False:\n", rule="INSERT-RETRIEVABLE"),
+    ]
+    bound_again = [
+        V("bound-again-mapping-keeps-stale-truth", S, "DomainMapping._evaluate__", "            self._is_false_ = bool(value) if self._invert_ else not value\n", "", rule="BOUND-AGAIN-TRUTH"),
+        V("bound-again-comparison-keeps-stale-truth", S, "Comparator._evaluate__", "            self._is_false_ = not sources[self._id_].value\n", "", rule="BOUND-AGAIN-TRUTH"),
+    ]
+    return {
+        "C01": one_entry + wrap + shared_tail[2:] + keyless + bound_again + builders,
+        "C02": memo_clear + shared_tail + set_alg + dedup_truth[:1],
+        "C03": carries + bound_again,
+        "C04": memo_clear[:2] + shared_tail,
+        "C05": replay_agree + key_filter + set_alg[:1] + trie + identity[:1] + derived + keyless,
+        "C06": memo_clear[:1] + one_entry[:1] + stripped[:1],
+        "C07": shared_tail,
+        "C10": rowkey + trie,
+        "C11": memo_clear[:2] + one_entry + coverage + set_alg[:1] + dedup_truth + identity,
+        "C12": concluded + dedup_truth + memo_clear[:1],
+        "C13": builders + presence + wrap,
+        "C15": memo_clear[:1],
+        "C16": stripped[:1] + key_filter,
+        "C17": stripped[1:] + concat,
+        "C18": identity + keyless,
+        "C19": wrap,
+        "C20": trie + derived + coverage + keyless + identity[:1],
+    }
+
+
+for _pid, _vs in _batch7().items():
     REGISTRY[_pid] = _merged(REGISTRY[_pid], (lambda vs: (lambda: vs))(_vs))
